@@ -16,7 +16,7 @@ import numpy as np
 from common import *
 
 PROP_MODULES = ["HvsrVerif.Props.C18"]
-BRIDGE_MODULES = ["HvsrVerif.Bridge.PyOrient"]
+BRIDGE_MODULES = ["HvsrVerif.Bridge.PyOrient", "HvsrVerif.Bridge.PyTrim"]
 EXE = "drv_c10"
 
 DYADIC_DT = [0.5, 0.25, 0.125, 1 / 64, 1 / 128, 1 / 256, 1.0, 2.0]
